@@ -437,6 +437,36 @@
   (window (churn))
   (print (ev/read (p :err) 100) (os/proc-wait p)))
 
+(defscenario operator-methods
+  # every polymorphic opcode with a table operand whose method is a Janet function: the call pushes a frame (the stack
+  # is relocated in the JANET_DEBUG build), so the interpreter must reload its stack pointer before storing the result
+  (defn mk [tag]
+    (def m @{})
+    (each name ["+" "-" "*" "/" "%" "mod" "div" "&" "|" "^" "r&" "r|" "r^" "<<" ">>" ">>>" "r+" "r-" "r*" "r/" "r%" "rmod" "rdiv"
+                "rband" "rbor" "rbxor" "r<<" "r>>" "r>>>" "~"]
+      (def k (keyword name))
+      (put m k (fn [& args] (churn 1) (string tag "-" k "-" (length args)))))
+    (put m :compare (fn [a b] (churn 1) 0))
+    m)
+  (def m (mk "m"))
+  (def out @[])
+  (window
+    (defn go [x y]
+      (array/push out (+ x y)) (array/push out (- x y)) (array/push out (* x y)) (array/push out (/ x y))
+      (array/push out (% x y)) (array/push out (mod x y)) (array/push out (div x y))
+      (array/push out (band x y)) (array/push out (bor x y)) (array/push out (bxor x y))
+      (array/push out (blshift x y)) (array/push out (brshift x y)) (array/push out (brushift x y))
+      (array/push out (< x y)) (array/push out (<= x y)) (array/push out (> x y)) (array/push out (>= x y)))
+    (go m 3) (go 3 m) (go m m)
+    # immediate forms
+    (array/push out (+ m 1)) (array/push out (- m 1)) (array/push out (* m 2)) (array/push out (/ m 2))
+    (array/push out (blshift m 1)) (array/push out (brshift m 1)) (array/push out (brushift m 1))
+    (array/push out (< m 1)) (array/push out (> m 1))
+    (array/push out (bnot m))
+    (var acc 0)
+    (def r (% m 7)) (set acc (string r "!")) (array/push out acc))
+  (print (string/format "%j" out)))
+
 (defscenario int64-boxed
   (def a (int/s64 "9007199254740993"))
   (def t @{:v (int/u64 "18446744073709551615")})
